@@ -264,3 +264,46 @@ def run(prog, chk):
     apps = [c for c in walk_no_defs(sk.node) if M.is_call(c, attr="append")]
     ok = all(unparse(c.func.value) == "kex_algos" for c in apps)
     chk.ob("R5.append-to-copy", "_send_kex_init", ok and len(apps) >= 2, sk.loc, "%d marker append(s), all on the local copy" % len(apps))
+    # ---- R6 what is advertised is what the selection will use -------------------------------------------------
+    # Every name-list written into KEXINIT is (a copy of) a preferred_* property.  _parse_kex_init selects with the same
+    # properties, evaluated later.  So nothing in _send_kex_init may change those properties (set_security_options ...,
+    # writes to _preferred_*) on a path *after* the advertised value was read: the peer would choose from a list the
+    # local side no longer honours.
+    fs = Flow(prog, sk, implicit=False)
+    preads = []      # (node where the advertised value is read, property text)
+    for (n, c) in fs.nodes_with_call(attr="add_list"):
+        a = c.args[0] if c.args else None
+        if a is None:
+            continue
+        for x in walk_no_defs(a):
+            if isinstance(x, ast.Attribute) and unparse(x).startswith("self.preferred_"):
+                preads.append((n, unparse(x)))
+        if isinstance(a, ast.Name):
+            for (dn, rhs) in fs.defs(a.id, n):
+                if rhs is None:
+                    continue
+                for x in walk_no_defs(rhs):
+                    if isinstance(x, ast.Attribute) and unparse(x).startswith("self.preferred_"):
+                        preads.append((dn, unparse(x)))
+    writers = []
+    for n in fs.nodes(lambda n: n.kind == "stmt"):
+        a = n.ast
+        if isinstance(a, ast.Assign):
+            for t in a.targets:
+                if isinstance(t, ast.Attribute) and (unparse(t.value) in ("self.get_security_options()",) or unparse(t).startswith("self._preferred")):
+                    writers.append((n, unparse(t)))
+    chk.floor("R6", "reads of preferred_* in _send_kex_init", len(preads), 6)
+    prop_of = {"kex": "self.preferred_kex", "ciphers": "self.preferred_ciphers", "digests": "self.preferred_macs", "key_types": "self.preferred_keys",
+               "compression": "self.preferred_compression"}
+    bad = []
+    for (wn, wt) in writers:
+        attr = wt.split(".")[-1].replace("_preferred_", "")
+        target_prop = prop_of.get(attr, "self.preferred_" + attr)
+        for (rn, rt) in preads:
+            if rt != target_prop:
+                continue
+            if rn.id != wn.id and wn.id in fs.cfg.reach([rn.id], avoid_edge=fs.avoid):
+                bad.append("%s is read at %s and %s is assigned later at %s" % (rt, fs.where(rn), wt, fs.where(wn)))
+    chk.ob("R6.advertised-list-is-the-list-used", "_send_kex_init", not bad, sk.loc,
+           "%d write(s) to the security options in this function; %s" % (len(writers), "; ".join(bad) if bad else
+                                                                           "none follows a read of the property it changes"))
